@@ -372,3 +372,18 @@ V("c12-anomaly-wrapper-lost", "C12", "violation", "C12.R3", edits=[(AN, "@wrap_a
 V("c12-ecc2true-sign", "C12", "violation", "C12.R3", edits=[(AN, "    return arctan2(sin(E) * sqrt(1 - ecc**2), cos(E) - ecc)", "    return arctan2(sin(E) * sqrt(1 - ecc**2), cos(E) + ecc)")])
 V("c12-meanlong-retro-sign", "C12", "violation", "C12.R3", edits=[(AN, "    return meanAnom2TrueAnom(lam - argp - II * raan, ecc)", "    return meanAnom2TrueAnom(lam - argp + II * raan, ecc)")])
 V("c12-n-validate-reordered", "C12", "pass", edits=[(STC, "            self._eccentric = True\n            self._inclined = True\n\n        elif self.true_anomaly", "            self._inclined = True\n            self._eccentric = True\n\n        elif self.true_anomaly")])
+
+# ------------------------------------------------------------------------------------ C20
+IODF = "estimation/initial_orbit_determination.py"
+LMF = "physics/orbit_determination/lambert.py"
+V("c20-revert-F14-position-as-state", "C20", "violation", "C20.R2", revert="1312dfd")
+V("c20-az-el-swapped", "C20", "violation", "C20.R1", edits=[(TM, "        observation.elevation_rad,\n        observation.azimuth_rad,\n", "        observation.azimuth_rad,\n        observation.elevation_rad,\n")])
+V("c20-site-lon-lat-swapped", "C20", "violation", "C20.R1", edits=[(TM, "        lat=sensor_lla[0],\n        lon=sensor_lla[1],", "        lat=sensor_lla[1],\n        lon=sensor_lla[0],")])
+V("c20-sensor-position-not-added", "C20", "violation", "C20.R1", edits=[(TM, "    return eci_relative_pos[:3] + observation.sensor_eci[:3]", "    return eci_relative_pos[:3]")])
+V("c20-forward-azimuth-sign", "C20", "violation", "C20.R1", edits=[("physics/measurements.py", "        azimuth = arctan2(slant_range_sez[1], -1.0 * slant_range_sez[0])", "        azimuth = arctan2(slant_range_sez[1], slant_range_sez[0])")])
+V("c20-solver-positions-swapped", "C20", "violation", "C20.R3", edits=[(IODF, "            initial_position,\n            final_position,\n            transit_time,", "            final_position,\n            initial_position,\n            transit_time,")])
+V("c20-initial-velocity-returned", "C20", "violation", "C20.R3", edits=[(IODF, "        _, final_velocity = self.orbit_determination_method(", "        final_velocity, _ = self.orbit_determination_method(")])
+V("c20-tof-from-detection-time", "C20", "violation", "C20.R3", edits=[(IODF, "            final_position,\n            previous_observation[-1].julian_date,\n            current_julian_date,", "            final_position,\n            previous_observation[0].julian_date,\n            current_julian_date,")])
+V("c20-fg-velocity-sign", "C20", "violation", "C20.R3", edits=[(LMF, "    current_velocity = (gauss_g_dot * current_position - initial_position) / gauss_g", "    current_velocity = (gauss_g_dot * current_position + initial_position) / gauss_g")])
+V("c20-universal-gdot", "C20", "violation", "C20.R3", edits=[(LMF, "    gauss_g_dot = 1.0 - y_new / r_mag\n    return _calculateVelocities(initial_position, current_position, gauss_f, gauss_g, gauss_g_dot)", "    gauss_g_dot = 1.0 - y_new / r0_mag\n    return _calculateVelocities(initial_position, current_position, gauss_f, gauss_g, gauss_g_dot)")])
+V("c20-n-named-args", "C20", "pass", edits=[(IODF, "        initial_position = radarObs2eciPosition(previous_observation[-1])", "        initial_position = radarObs2eciPosition(previous_observation[-1])  # position only")])
